@@ -20,9 +20,9 @@ CHECKS = {
          "Held on every execution observed: all byte strings <=2 bytes, all token sequences <=4 (quick) / <=5 (thorough) tokens, random bytes incl. invalid UTF-8, token soups, every single-token mutant and truncation of the corpus, nesting families to depth 200; no stage panicked, no Err was empty, parse stayed under its logical work cap, and `gram check` kept its exit-status/stdout/stderr contract on the subset sent through the real binary.",
          "Library stages are observed in the harness build of gram's sources (checked arithmetic); wall-clock timeouts and stack exhaustion at the process boundary are inconclusive, never violations.",
          "DESIGN.md section 4, C14"),
- "C17": ("runtime monitor: logical work counter (parse-function invocations, hook) with abort cap, plus thread CPU time, over parameterised input families",
-         "Held on every execution observed: for 30 families x 3 forms x sizes 16..2048 (quick) / 4096 (thorough) the number of parse-function invocations stayed linear (local exponent <= 2.5, never above the quadratic cap) and CPU time showed no super-quadratic growth.",
-         "Observational bound over families, not all inputs. W sees only the memoised parse functions; the rest is covered by CPU time, judged only above 300 ms.",
+ "C17": ("runtime monitor: logical work counters (parse-function and definition-order-check invocations, hooks, with abort cap) and guest instruction counts under valgrind cachegrind, over parameterised input families",
+         "Held on every execution observed: for 34 families x 3 forms x sizes 16..2048 (quick) / 4096 (thorough) the number of parse-function invocations and of definition-order checks stayed linear (local exponent <= 2.5, never above the quadratic cap), and the instruction count of tokenize+parse measured under valgrind for sizes 64..512 (quick) / 2048 (thorough) grew with a local exponent of at most 1.4.",
+         "Observational bound over families, not all inputs. CPU time is recorded but only triggers a re-measurement by instruction count; it never decides (it is load-dependent on this machine). valgrind unavailable = inconclusive.",
          "DESIGN.md section 4, C17"),
  "C01": ("runtime monitor: the harness drives evaluator::step under a step budget on every accepted program and classifies the stuck redex by walking the evaluation context",
          "Held on every execution observed: every program accepted by the front end among generated explicit/inferred programs, their single-point perturbations and the corpus was stepped up to 4000 (quick) / 20000 (thorough) steps; no run ended in a stuck term other than a division by literal zero, except the two recorded findings (unfilled source hole; hole identity lost in substitution), which are attributed narrowly (pointer identity with parse-created cells; hook counters at the unresolved arms of open/signed_shift, inferred programs only).",
